@@ -265,6 +265,15 @@ def stepExpr (st : DState) (e : Sexp) : Option (DState × String) :=
     let toks := tokenize Generated.exprSpecials Generated.blanks s
     let (s0, inputs) := mkInputs n {}
     pure (st, finishTyped st.lang fx (parseExprToks st.plang (typedBuilder st.lang st.ops true) inputs s0 toks))
+  | .list [.atom "texprf", n, fx, af, s] => do
+    -- `lang.parse(text, *inputs, fix=af)`: the output type of each application is fixed as it is built, or not
+    let n ← Sexp.nat? n
+    let fx ← boolOf fx
+    let af ← boolOf af
+    let s ← Sexp.str? s
+    let toks := tokenize Generated.exprSpecials Generated.blanks s
+    let (s0, inputs) := mkInputs n {}
+    pure (st, finishTyped st.lang fx (parseExprToks st.plang (typedBuilder st.lang st.ops af) inputs s0 toks))
   | .list [.atom "fixcase", .list bs, t, pl] => do
     let bs ← bs.mapM (fun b => match b with
       | .list [lo, hi] => some ((match lo with | .atom "-" => none | x => Sexp.nat? x), (match hi with | .atom "-" => none | x => Sexp.nat? x))
